@@ -1,6 +1,7 @@
 package props
 
 import (
+	"bufio"
 	"fmt"
 	"strings"
 
@@ -115,9 +116,52 @@ func (e *C13) Run(c *core.Ctx, idx int) {
 			c.Rec.Violation("xmp:attr-vs-elem:"+firstField(ds[0]), "attribute-form and element-form serialisations of the same record parse differently: "+joinMax(ds, 4), map[string]any{"differences(attr vs elem)": ds})
 		}
 	}
+	if idx%8 == 3 {
+		e.sequential(c, r, rec, st)
+	}
 	if c.Rec.WantSample() && idx%307 == 9 {
 		c.Rec.Sample(map[string]any{"props": len(rec.Props), "style": fmt.Sprintf("%+v", st), "fields": rec.Exp.Names})
 	}
+}
+
+// sequential: two packets back to back in one stream, read through a caller-owned
+// *bufio.Reader that is large enough for the parser to use it directly, with an unrelated
+// ParseXmp call on another reader in between. Each packet must parse to its own record.
+func (e *C13) sequential(c *core.Ctx, r *core.Rng, rec1 *gen.XMPRec, st gen.XMPStyle) {
+	rec2 := gen.GenXMPRec(r, r.Pick(30, 60), 100)
+	rec3 := gen.GenXMPRec(r, 30, 60)
+	st.Leading, st.ManyArrays = "", 0
+	b1, b2, b3 := rec1.Serialise(r, st, 0), rec2.Serialise(r, st, 0), rec3.Serialise(r, st, 0)
+	stream := append(append(append([]byte(nil), b1...), []byte("\n\n")...), b2...)
+	br := bufio.NewReaderSize(mon.NewRS(stream), r.Pick(1538, 2048, 4096, 8192))
+	var x1, x2 xmp.XMP
+	var e1, e2 error
+	pk, key, text := core.Guard(func() {
+		x1, e1 = xmp.ParseXmp(br)
+		_, _ = xmp.ParseXmp(mon.NewRS(b3)) // someone else parses something else meanwhile
+		_, _ = xmp.ParseXmp(mon.OnlyReader{R: mon.NewRS(b3)})
+		x2, e2 = xmp.ParseXmp(br)
+	})
+	c.Rec.Eval(4)
+	if pk {
+		c.Rec.Violation("xmp:sequential:"+key, "ParseXmp panicked on two packets read through one bufio.Reader: "+firstLineOf(text), map[string]any{"panic": text})
+		return
+	}
+	for i, p := range []struct {
+		rec *gen.XMPRec
+		x   xmp.XMP
+		err error
+	}{{rec1, x1, e1}, {rec2, x2, e2}} {
+		var bad []string
+		if p.err != nil {
+			bad = append(bad, "error: "+p.err.Error())
+		}
+		bad = append(bad, compareXMP(p.rec.Exp, obs.XMP(p.x))...)
+		if len(bad) > 0 {
+			c.Rec.Violation("xmp:sequential:"+firstField(bad[0]), fmt.Sprintf("packet %d of two read through one caller-owned bufio.Reader (another ParseXmp call in between) does not parse to its record: %s", i+1, joinMax(bad, 4)), map[string]any{"packet": i + 1, "mismatches": bad})
+		}
+	}
+	c.Rec.Count("sequential_packet_pairs", 1)
 }
 
 // sweep: one text property, value length 1..1100, attribute form (k even) or element form (k odd);
